@@ -115,6 +115,7 @@ void vf::c14_case(Ctx &c) {
       if (mode != 3) continue;
       SplitMix r(c.t.u16()); for (int i = 0; i < 4; i++) { uint8_t b[4]; uint32_t v = (uint32_t)r.next(); memcpy(b, &v, 4); memcpy(ob[i]->store, b, ob[i]->width); }
       std::vector<uint8_t> model = s.snapshot();
+      uint8_t pre[4][4]; for (int i = 0; i < 4; i++) memcpy(pre[i], ob[i]->store, ob[i]->width);   // the values at the moment of the SYNC: a buffered synchronous RPDO is applied after the TPDOs were sent
       s.clear_tx(); s.rx(Frame::mk(0x80, 0, {}));
       int e = 0;
       if (act[0] && !(ac[0].id & 0x80000000u)) { if (ac[0].type >= 1 && ac[0].type <= 240) { synccnt++; e = synccnt == ac[0].type; if (e) synccnt = 0; } else if (ac[0].type < 254) e = -1; }   // type 0 and reserved types: not constrained
@@ -123,7 +124,7 @@ void vf::c14_case(Ctx &c) {
       if (e >= 0) CHECK(c, (int)s.tx.size() == e, "takes-effect-as-stored", "SYNC with the activated TPDO configuration (COB-ID %08X, type %u, %d SYNC(s) since the last transmission or activation): %zu frame(s), expected %d", ac[0].id, ac[0].type, synccnt, s.tx.size(), e);
       if (e == 1 && s.tx.size() == 1) {
         bool consistent = true; for (int i = 0; i < ac[0].num; i++) { int o = findobj(ac[0].map[i]); int by = (ac[0].map[i] & 0xFF) >> 3; if (o < 0 || by != OB[o].bytes) consistent = false; }
-        if (consistent) { uint8_t ex[8]; int p = 0; for (int i = 0; i < ac[0].num; i++) { int o = findobj(ac[0].map[i]); memcpy(ex + p, ob[o]->store, OB[o].bytes); p += OB[o].bytes; }
+        if (consistent && !rpend) { uint8_t ex[8]; int p = 0; for (int i = 0; i < ac[0].num; i++) { int o = findobj(ac[0].map[i]); if (o < 4) memcpy(ex + p, pre[o], OB[o].bytes); else memcpy(ex + p, ob[o]->store, OB[o].bytes); p += OB[o].bytes; }
           CHECK(c, s.tx[0].id == (ac[0].id & 0x7FFu) && s.tx[0].dlc == p && !memcmp(s.tx[0].d, ex, p), "takes-effect-as-stored", "TPDO frame %s on SYNC does not match the activated configuration (id %03X, %d mapped bytes)", s.tx[0].str().c_str(), ac[0].id & 0x7FF, p); }
       }
       if (!rpend) { std::string d = s.diff_snapshot(model, s.snapshot()); CHECK(c, d.empty(), "takes-effect-as-stored", "a SYNC that follows no reception of a synchronous RPDO changed objects: %s", d.c_str()); }
